@@ -190,6 +190,51 @@ fn gaussian_cases(rng: &mut Rng, ncases: usize) {
   }
 }
 
+
+/// code paths outside the main model: slices shorter / longer than the grid, all-zero slices, an explicit zero norm,
+/// empty grids, empty delay lists; every call under catch_unwind
+fn edge_cases(rng: &mut Rng) {
+  let one = |label: &str, xs: (f64, f64, usize), ys: (f64, f64, usize), f: Vec<C>, g: Vec<C>, tau: f64, norm: Option<f64>, taus: Vec<f64>| {
+    let sp = space(xs, ys);
+    let (fv, gv) = (f.clone(), g.clone());
+    let single = guarded(move || hom_rate(sp, &fv, &gv, tau * S, norm));
+    let (fv, gv, tv) = (f.clone(), g.clone(), taus.clone());
+    let series = guarded(move || hom_rate_series(sp, &fv, &gv, tv.iter().map(|t| *t * S)));
+    emit(json!({
+      "kind": "edge", "label": label, "cols": xs.2, "rows": ys.2, "xs": [fx(xs.0), fx(xs.1)], "ys": [fx(ys.0), fx(ys.1)],
+      "fre": fxs(&f.iter().map(|z| z.re).collect::<Vec<_>>()), "fim": fxs(&f.iter().map(|z| z.im).collect::<Vec<_>>()),
+      "gre": fxs(&g.iter().map(|z| z.re).collect::<Vec<_>>()), "gim": fxs(&g.iter().map(|z| z.im).collect::<Vec<_>>()),
+      "tau": fx(tau), "norm": norm.map(fx), "taus": fxs(&taus),
+      "single": res(single),
+      "series": match series { Ok(v) => json!(fxs(&v)), Err(p) => json!({"panic": p}) },
+    }));
+  };
+  for (cols, rows) in [(2usize, 2usize), (3, 2), (1, 1), (4, 3)] {
+    let n = cols * rows;
+    let xs = (1.0, 3.0, cols);
+    let ys = (2.0, 5.0, rows);
+    let mk = |rng: &mut Rng, k: usize| -> Vec<C> { (0..k).map(|_| C::new(dy(rng), dy(rng))).collect() };
+    let tau = dyadic_tau(rng);
+    let taus = vec![0.0, tau];
+    let (f, g) = (mk(rng, n), mk(rng, n));
+    one("exact", xs, ys, f.clone(), g.clone(), tau, None, taus.clone());
+    one("f_short", xs, ys, f[..n - 1].to_vec(), g.clone(), tau, None, taus.clone());
+    one("g_short", xs, ys, f.clone(), g[..n - 1].to_vec(), tau, None, taus.clone());
+    one("both_short_empty_delays", xs, ys, f[..n - 1].to_vec(), g[..n - 1].to_vec(), tau, None, vec![]);
+    one("f_long", xs, ys, mk(rng, n + 3), g.clone(), tau, None, taus.clone());
+    one("g_long", xs, ys, f.clone(), mk(rng, n + 2), tau, None, taus.clone());
+    one("f_zero", xs, ys, vec![C::new(0.0, 0.0); n], g.clone(), tau, None, taus.clone());
+    one("both_zero", xs, ys, vec![C::new(0.0, 0.0); n], vec![C::new(0.0, 0.0); n], tau, None, taus.clone());
+    one("g_zero", xs, ys, f.clone(), vec![C::new(0.0, 0.0); n], tau, None, taus.clone());
+    one("norm_zero", xs, ys, f.clone(), f.clone(), 0.0, Some(0.0), taus.clone());
+    one("norm_zero_g_zero", xs, ys, f.clone(), vec![C::new(0.0, 0.0); n], tau, Some(0.0), taus.clone());
+    one("empty_delays", xs, ys, f.clone(), g.clone(), tau, None, vec![]);
+  }
+  // grids without points
+  one("empty_grid_cols0", (1.0, 3.0, 0), (2.0, 5.0, 3), vec![], vec![], 0.5, None, vec![0.0, 0.5]);
+  one("empty_grid_rows0", (1.0, 3.0, 2), (2.0, 5.0, 0), vec![C::new(1.0, 0.5)], vec![], 0.5, None, vec![0.0]);
+}
+
 fn setup_cases(rng: &mut Rng, ncases: usize) {
   let list = setups();
   for case in 0..ncases {
@@ -259,6 +304,7 @@ pub fn run(args: &[String]) {
   let ngauss = arg_u64(args, 4, 6) as usize;
   let mut rng = Rng::new(seed);
   array_cases(&mut rng, ncases, max_side);
+  edge_cases(&mut rng);
   gaussian_cases(&mut rng, ngauss);
   setup_cases(&mut rng, nsetup);
 }
